@@ -103,6 +103,8 @@ PROPS["C04"] = {
         "clauses": [(O + "ClientLogin::finish", "reflect"), (O + "ClientLogin::finish", "sound_mac"), (O + "ClientLogin::finish", "errkind"), (O + "ClientLogin::finish", "rp"), (T + "TripleDh::generate_ke3", "sound"), (T + "TripleDh::generate_ke3", "errkind"), (T + "TripleDh::generate_ke3", "ctx_err"), (M + "CredentialResponse::deserialize", "*"), (M + "CredentialResponse::serialize_without_ke", "*"), (M + "CredentialRequest::serialize_iter", "*"), (T + "Ke2Message::to_bytes_without_mac", "*"), (T + "Ke1Message::serialize", "*"), (O + "MaskedResponse::iter", "*"), (T + "Ke2Message::deserialize", "*"), (O + "MaskedResponse::deserialize", "*")],
          "supporting": [(T + "TripleDh::generate_ke3", "*"), (T + "derive_3dh_keys", "*"), (T + "hkdf_expand_label_extracted", "*"), (T + "hkdf_expand_label", "*"), (T + "derive_secrets", "*")],
          "theorems": ["thm_c04_mac_only", "thm_c04_fields", "thm_transcript_agreement", "lemma_preamble_injective", "lemma_frame_split", "lemma_fixed_split"],
+        "kani": {"quick": [("api", "x25519_pk_decode_identity")], "thorough": []},
+        "replay": ["c04"],
     }],
     "witness": "c04",
     "explanation": "The real finish step accepts only if the MAC field equals the RFC server MAC over the client's own transcript (request bytes, OPRF evaluation, masking nonce, masked credentials, server nonce, server ephemeral key, context, identities). thm_c04_mac_only: changing only the MAC is rejected (exact). thm_c04_fields: with the MAC unchanged, acceptance forces every transcript field to equal the server's and the request to be this client's (every single-byte substitution at every offset, every splice leaving one of the two parts genuine).",
@@ -256,8 +258,8 @@ PROPS["C10"] = {
         "name": "strict-canonical",
         "clauses": star(DECODERS + ENCODERS + [ER + "check_slice_size", ER + "check_slice_size_atleast", O + "MaskedResponse::deserialize", O + "MaskedResponse::serialize"]),
         "theorems": C10_THMS + ["thm_c13_server_registration", "thm_c13_client_registration", "thm_c13_client_login", "thm_c13_server_setup", "thm_c03_reload"],
-        "kani": {"quick": [("leaf", "check_slice_size_exact")],
-                 "thorough": [("api", "x25519_sk_decode"), ("api", "x25519_sk_decode_length"), ("api", "x25519_pk_decode_identity"), ("api", "ristretto_decode_length"), ("api", "ristretto_sk_decode")]},
+        "kani": {"quick": [("leaf", "check_slice_size_exact"), ("api", "x25519_sk_decode"), ("api", "x25519_pk_decode_identity"), ("api", "ristretto_sk_decode")],
+                 "thorough": [("api", "x25519_sk_decode_length"), ("api", "ristretto_decode_length")]},
         "replay": ["c10"],
     }],
     "witness": "c10",
@@ -270,8 +272,8 @@ PROPS["C11"] = {
         "name": "decoders-only",
         "clauses": star(DECODERS) + [(K + "PublicKey::deserialize", "*"), (K + "PrivateKey::deserialize", "*"), (K + "KeyPair::from_private_key_slice", "*"), (O + "unmask_response", "*")],
         "exclude": {"strict"},
-        "kani": {"quick": [("api", "x25519_pk_no_small_order")],
-                 "thorough": [("api", "x25519_sk_decode"), ("api", "x25519_pk_decode_identity"), ("api", "ristretto_pk_decode_rejects_identity"), ("api", "ristretto_sk_decode"), ("api", "ristretto_decode_length"), ("api", "x25519_sk_decode_length")]},
+        "kani": {"quick": [("api", "x25519_pk_no_small_order"), ("api", "x25519_sk_decode"), ("api", "ristretto_sk_decode"), ("api", "ristretto_pk_decode_rejects_identity")],
+                 "thorough": [("api", "x25519_pk_decode_identity"), ("api", "ristretto_decode_length"), ("api", "x25519_sk_decode_length")]},
         "replay": ["c11"],
     }],
     "witness": "c11",
